@@ -230,7 +230,7 @@ def run(sc, tape_mode="log", script=None, provider=None):
             c = {"outcome": outcome, "exc": exc, "force": force, "upd": upd, "values_before": vb, "values": values_of(),
                  "nmodel": sum(1 for e in ev if e["k"] == "model"), "nloss": sum(1 for e in ev if e["k"] == "loss"),
                  "seen_before": seen_before, "seen_after": int(getattr(ex, "seen_samples", seen_before + 1)),
-                 "ret_ok": outcome != "ret" or ret is ex.importance_values or dict(ret) == dict(ex.importance_values),
+                 "ret_ok": outcome != "ret" or ret is ex.importance_values or (isinstance(ret, dict) and dict(ret) == dict(ex.importance_values)),
                  "n": n_eff, "fault": sc.fault[1] if sc.fault and sc.fault[0] == ci else 0,
                  "raw_values": dict(ex.importance_values)}
             c["recomputed"] = c["nmodel"] > 0 and outcome == "ret"
